@@ -111,11 +111,14 @@ func readCases(t *testing.T, path string) []caseDef {
 }
 
 type world struct {
-	n     *kit.MgrNode
-	c     caseDef
-	ids   map[string]datatransfer.ChannelID
-	names map[string]string
+	n          *kit.MgrNode
+	c          caseDef
+	ids        map[string]datatransfer.ChannelID
+	names      map[string]string
+	seededKeys map[string]bool
 }
+
+func (w *world) seeded(key string) bool { return w.seededKeys[key] }
 
 func (w *world) chanKeys() map[string][]byte {
 	out := map[string][]byte{}
@@ -262,6 +265,9 @@ func (w *world) do(s Stim) (ret string, reply kit.Msg, pan string) {
 // implied: the channel id a message from s.From implies (built from the authenticated sender, as the
 // receiver and the transport adapter do).
 func (w *world) implied(s Stim) datatransfer.ChannelID {
+	if c, ok := w.ids[s.C]; ok && s.Msg.Tid == 0 && s.C != "" {
+		return c // histories address locally opened channels (time-based transfer ids) by name
+	}
 	if s.Msg.IsReq {
 		return datatransfer.ChannelID{Initiator: kit.Peer(s.From), Responder: kit.Peer(w.c.Self), ID: datatransfer.TransferID(s.Msg.Tid)}
 	}
